@@ -40,6 +40,11 @@ pub fn is_ws(c: u16) -> bool {
     if c == 0x20 && p() == P_TRIM_SPACE {
         return false;
     }
+    is_ws_raw(c)
+}
+
+/// The unperturbed predicate (used where the harness itself, not the oracle, needs it).
+pub fn is_ws_raw(c: u16) -> bool {
     matches!(
         c,
         0x09 | 0x0A | 0x0B | 0x0C | 0x0D | 0x20 | 0xA0 | 0x1680 | 0x2000..=0x200A | 0x2028 | 0x2029 | 0x202F | 0x205F | 0x3000 | 0xFEFF
